@@ -38,7 +38,7 @@ Init == \/ fam = "rt" /\ par \in {<<np, ni, fs, na, nunk>> : np \in 0..2, ni \in
         \/ fam = "rand" /\ par \in {<<r>> : r \in 1..NRand}
         \/ fam = "bad-scan" /\ par = <<>>
         \/ fam = "scan" /\ par \in {<<w, sc>> : w \in 0..13, sc \in 0..20} \cup {<<w, sc>> : w \in {32, 33, 252, 255, 256}, sc \in {28, 32, 36, 40, 252, 256, 260}}     \* the whole (width, scan-line) relation on a grid
-        \/ fam = "bad-pal" /\ par \in {<<1>>, <<0>>}
+        \/ fam = "bad-pal" /\ par \in {<<np, ix>> : np \in 0..2, ix \in {0, 1, 2, 3, 255, 256, 32767, 32768, 65534, 65535}} /\ par[2] >= par[1]       \* <<palettes, palette index of the image>>
         \* header totals that disagree with the contents: <<animations, frame total delta, layer total delta>>
         \/ fam = "bad-totals" /\ par \in {<<na, df, dl>> : na \in 0..2, df \in {0, 1, 2, 6}, dl \in {0, 1, 2, 6}} /\ (par[2] # 1 \/ par[3] # 1)       \* delta = value - 1
         \/ fam = "bad-layers" /\ par \in {<<n, extra>> : n \in {0, 1, 2, 126, 127}, extra \in {1, 2, 128, 256, 512}}
@@ -49,7 +49,7 @@ Value == CASE fam = "rt" -> LET np == par[1]  ni == par[2]  fs == par[3]  na == 
            [] fam = "rand" -> RValue(par[1])
            [] fam = "bad-scan" -> V(1, << Img(5, FALSE, 0) >>, <<>>)
            [] fam = "scan" -> V(1, << [Img(par[1], TRUE, 0) EXCEPT !.scan = par[2]] >>, <<>>)
-           [] fam = "bad-pal" -> V(par[1], << Img(5, TRUE, par[1]) >>, <<>>)
+           [] fam = "bad-pal" -> V(par[1], << Img(5, TRUE, par[2]) >>, <<>>)
            [] fam = "bad-totals" -> V(1, << Img(8, TRUE, 0) >>, [a \in 1..par[1] |-> Anim(FrameSets[a + 2], a - 1)])
            [] OTHER -> V(0, <<>>, << Anim(<< F(par[1], 0, 0, par[2]) >> , 0) >>)
 \* the good families satisfy the cross-field rules, the bad ones violate them (so that the writer's refusal is really exercised)
